@@ -60,7 +60,7 @@ fn main() {
     // thorough tier of C14 / C15: the same enumeration again on the release-profile binary (no overflow checks)
     let mut rep = rep;
     if let Ok(rel) = std::env::var("RBP_BIN_RELEASE") {
-        if !rel.is_empty() && matches!(args[1].as_str(), "C14" | "C15") {
+        if !rel.is_empty() && refmodel::ev::is_thorough() && matches!(args[1].as_str(), "C14" | "C15") {
             std::env::set_var("RBP_BIN", &rel);
             let mut r2 = match args[1].as_str() {
                 "C14" => c14::run(),
